@@ -16,7 +16,7 @@ pub const REQUIRED: &[&str] = &[
     "arm.dispatch[generic].c32", "arm.dispatch[sse2].c32", "arm.dispatch[avx2].c32", "arm.dispatch[auto].c32",
     "arm.to_striped.c32", "alphabet.dna", "alphabet.protein", "op.stripe", "op.stripe_into", "op.configure_wrap",
     "op.configure", "op.clone", "class.avx2_transpose_block", "class.wrap>rows", "class.wrap>32",
-    "class.reuse_longer_for_shorter", "class.reuse_for_empty", "class.second_larger_wrap", "dispatch_forced.generic",
+    "class.rows>=256", "class.reuse_longer_for_shorter", "class.reuse_for_empty", "class.second_larger_wrap", "dispatch_forced.generic",
     "dispatch_forced.sse2", "dispatch_forced.avx2",
 ];
 
@@ -265,10 +265,25 @@ fn check_linear<A: Alphabet, C: PositiveLength>(s: &[u8], op: &str) -> Result<()
 }
 
 fn random_seq(rng: &mut Rng, k: usize, l: usize) -> Vec<u8> {
-    // non periodic content; wildcards are rare but present
-    (0..l)
-        .map(|_| if rng.chance(0.02) { (k - 1) as u8 } else { rng.below(k - 1) as u8 })
-        .collect()
+    match rng.below(8) {
+        // low-complexity content: a homopolymer, long runs of one symbol (assembly gaps are runs of
+        // the wildcard), so that a column holds the same symbol over hundreds of rows
+        0 => {
+            let x = if rng.chance(0.4) { (k - 1) as u8 } else { rng.below(k - 1) as u8 };
+            vec![x; l]
+        }
+        1 => {
+            let mut v = Vec::with_capacity(l);
+            while v.len() < l {
+                let x = if rng.chance(0.3) { (k - 1) as u8 } else { rng.below(k - 1) as u8 };
+                let run = rng.range(1, 700).min(l - v.len());
+                v.extend(std::iter::repeat(x).take(run));
+            }
+            v
+        }
+        // non periodic content; wildcards are rare but present
+        _ => (0..l).map(|_| if rng.chance(0.02) { (k - 1) as u8 } else { rng.below(k - 1) as u8 }).collect(),
+    }
 }
 
 pub fn history<A: Alphabet, C: PositiveLength, S: Striper<A, C>>(
@@ -474,11 +489,16 @@ fn one<A: Alphabet>(case: u64, rng: &mut Rng, rep: &mut Report, alpha: &str, cfg
         return;
     }
     // random histories
-    let l = match rng.below(5) {
-        0 => rng.below(80),
-        1 => *rng.pick(&b32),
+    let l = match rng.below(20) {
+        0..=3 => rng.below(80),
+        4..=7 => *rng.pick(&b32),
+        // a few long sequences in every tier: 256 and more rows of 32 columns
+        8 => rng.range(8161, 9300),
         _ => rng.below(max_len + 1),
     };
+    if l >= 8161 {
+        rep.cover("class.rows>=256");
+    }
     match rng.below(11) {
         0 => history::<A, U1, _>(case, rng, rep, alpha, &GenericStriper, l.min(300), 6, 300),
         1 => history::<A, U2, _>(case, rng, rep, alpha, &GenericStriper, l.min(600), 6, 600),
